@@ -141,7 +141,7 @@ def coq_build(pid, log):
         rc, out = sh([f"{V}/tools/coqproject.sh"])
         if os.path.exists(f"{COQ}/Props/{pid}.vo"):
             os.remove(f"{COQ}/Props/{pid}.vo")
-        rc, out = sh(f"timeout 1500 make -j6 Props/{pid}.vo", cwd=COQ, timeout=1600)
+        rc, out = sh(f"timeout 1500 make -j16 Props/{pid}.vo", cwd=COQ, timeout=1600)
     log.append(out[-6000:])
     res["out"] = out
     if rc != 0:
@@ -228,7 +228,7 @@ def judge_cases(prop, cases, scratch, per_case_timeout=None):
                     # environment problem (stale .vo), not a problem of this case: give up on the shard
                     break
 
-    with ThreadPoolExecutor(max_workers=int(os.environ.get("VERIF_JOBS", "5"))) as ex:
+    with ThreadPoolExecutor(max_workers=int(os.environ.get("VERIF_JOBS", "16"))) as ex:
         list(ex.map(run_shard, range(len(shards))))
     return results, errors
 
